@@ -37,7 +37,7 @@ DEVS = {
 }
 
 
-BOLT_PATHS = ("QueryIds", "QueryIdsC", "QueryWithCursorC", "IterateIds", "SortedScan")
+BOLT_PATHS = ("QueryIds", "QueryIdsC", "QueryIdsC-again", "QueryWithCursorC", "IterateIds", "SortedScan")
 
 
 def probe_devs(ctx, bindir, paths):
